@@ -94,15 +94,18 @@ Inductive lres :=
 | LConst (k : nat)        (* minute / hour / day / week, relative to time.Now() *)
 | LErr.
 
-Definition lql_parse (now : now_t) (fs : list (option cfmt)) (lit : bytes) : lres :=
-  let dt := to_lower (trim_sp lit) in
+(* [lower_abs] = the format list sees the lower-cased literal (the code before the fix of parseLqlDateTime);
+   false = it sees the literal as written (trimmed), only the relative form and the constants are case-insensitive *)
+Definition lql_parse_v (lower_abs : bool) (now : now_t) (fs : list (option cfmt)) (lit : bytes) : lres :=
+  let dts := trim_sp lit in
+  let dt := to_lower dts in
   match parse_relative dt with
   | Some d => LRel d
   | None =>
       match index_of dt const_names 0 with
       | Some k => LConst k
       | None =>
-          match parse_all now fs dt with
+          match parse_all now fs (if lower_abs then dt else dts) with
           | Some (_, (s, ns)) => LAbs (wrap64 (s * 1000000000 + ns))
           | None => match parse_int64 dt with
                     | Some v => LAbs v
@@ -111,6 +114,9 @@ Definition lql_parse (now : now_t) (fs : list (option cfmt)) (lit : bytes) : lre
           end
       end
   end.
+
+Definition code_lowers_absolute : bool := false.
+Definition lql_parse := lql_parse_v code_lowers_absolute.
 
 (* the instant a relative literal denotes at a given `now` (Unix nanoseconds) *)
 Definition rel_instant (now_ns : Z) (dur : Z) : Z := now_ns - dur.
